@@ -54,7 +54,10 @@ def run(chk):
     chk.assume("Circuit.type(n) raises KeyError for a node without a type attribute (read from circuit.py by C12/C07 rules)")
 
     # ---- V: vocabulary -------------------------------------------------
-    tests = collect_type_tests(repo, fi)
+    tests = []
+    for (rel_, qual_), fi_ in sorted(repo.funcs.items()):
+        if rel_ == FILE and qual_.split(".")[0] not in ("visualize", "clog2", "int_to_bin", "bin_to_int"):
+            tests += collect_type_tests(repo, fi_)
     nv = 0
     for t in tests:
         for lit in t.lits:
@@ -69,7 +72,7 @@ def run(chk):
                 fact={"literal": lit, "comparison": norm(t.node)},
                 expect="a member of circuit.supported_types",
             )
-    chk.floor("type literals compared in lint", nv, 14)
+    chk.floor("type literals compared in lint", nv, 5)
 
     body = body_without_doc(fn)
     # names a refactoring may bind at module level or in the function prologue (lookup tables, helpers)
